@@ -72,6 +72,7 @@ fn main() {
             let js = ctx.to_json();
             if out != "/dev/stdout" {
                 let _ = ctx.write_distinct(&format!("{out}.distinct"));
+                let _ = ctx.write_pytrace(&format!("{out}.pytrace.jsonl"));
             }
             std::fs::write(&out, serde_json::to_string(&js).unwrap()).expect("write report");
         }
